@@ -11,6 +11,12 @@ def lp(id, variant, fam, cfg="default", weight=1, **kw):
     return r
 
 
+def fam(id, variant, family, opts, weight=1, **kw):
+    r = {"id": id, "variant": variant, "family": family, "opts": opts, "weight": weight, "crash_props": ["C17"], "timeout": 120}
+    r.update(kw)
+    return r
+
+
 LP_ASSUME = [
     "reference truth comes from the harness's Fourier-Motzkin solver; every verdict it gives is re-verified by substitution (point, multipliers, ray) before use",
     "infinite bounds are the library's sentinel +-mpq_ILL_MAXDOUBLE",
@@ -98,12 +104,6 @@ PLANS["C07"] = {
     "evidence": {"states": ["invalid_calls"], "transitions": ["api_transitions"], "nontrivial": ["invalid_calls"]},
     "assumptions": HIST_ASSUME,
 }
-
-
-def fam(id, variant, family, opts, weight=1, **kw):
-    r = {"id": id, "variant": variant, "family": family, "opts": opts, "weight": weight, "crash_props": ["C17"], "timeout": 120}
-    r.update(kw)
-    return r
 
 
 PLANS["C12"] = {
